@@ -128,6 +128,7 @@ type AWorld struct {
 	stepA     atomic.Int64 // copy of step readable from other goroutines
 	baseAt    map[int]map[int]string
 	mutSteps  map[string][]int
+	noClock   bool
 	rr        *randRecorder
 	maxQ      map[string]int
 	progress  int
@@ -644,6 +645,14 @@ func (w *AWorld) runLoop(o loopOpts) {
 // client call returned and the agent went quiet, otherwise a description of the wedge.
 func (w *AWorld) drain(extra func() bool) string { return w.drainMode(extra, true) }
 
+// quiesce lets everything runnable run but never advances the clock; it reports the calls
+// still unanswered then ("" if none).
+func (w *AWorld) quiesce(extra func() bool) string {
+	w.noClock = true
+	defer func() { w.noClock = false }()
+	return w.drainMode(extra, false)
+}
+
 // settle is drain for sequential use: it lets everything runnable run until the agent is
 // quiet but does not advance the clock when all client calls have returned (session
 // tokens and rate-limit windows stay as they are). If calls remain unanswered it falls
@@ -709,7 +718,7 @@ func (w *AWorld) drainMode(extra func() bool, clock bool) string {
 			fruitless = 0
 			continue
 		}
-		if !clock && w.allCallsDone() {
+		if !clock && (w.allCallsDone() || w.noClock) {
 			break
 		}
 		fruitless++
